@@ -259,7 +259,62 @@ def make_queries(tier):
                                                                  "sequential (wasm32)" if wasm else "read-ahead pipeline"))
         return q
 
+    def mk_marker(wasm, multibyte):
+        def q(E):
+            if E.mode != "symbolic":
+                return replay_marker(E)
+            I = E.I
+            I.cfg_values['target_arch="wasm32"'] = wasm
+            I.buffer_cap = C["data"]
+            I.loop_bound = C["data"] + 1
+            data = E.str("data", min(C["data"], 4), "ascii", min_len=1)
+            d, n = data.e, data.e.n
+            s0, l0 = E.int("start0"), E.int("length0")
+            off = E.int("marker_offset")
+            if multibyte:
+                # twin of the full query with the region of known finding C13-marker-single-byte-run assumed away:
+                # the included run that starts at the marker has at least two bytes
+                E.assume(z3.And(ult(off.e + bv(1), n), z3.Not(z3.And(ugt(l0.e, bv(0)), s0.e == off.e + bv(1)))))
+            # the exclusion fits; the marker sits on an INCLUDED position (what the SDK produces: offsets of
+            # top-level boxes that are hashed); markers on excluded positions are left unspecified
+            E.assume(z3.And(z3.BVAddNoOverflow(s0.e, l0.e, False), ule(s0.e + l0.e, n), ult(off.e, n)))
+            E.assume(z3.Not(z3.And(ugt(l0.e, bv(0)), ule(s0.e, off.e), ult(off.e - s0.e, l0.e))))
+            hr = VVec([VStruct("HashRange", {"start": s0, "length": l0, "bmff_offset": none()}),
+                       VStruct("HashRange", {"start": off, "length": VInt(1), "bmff_offset": some(off)})])
+            maxbuf = E.int("max_hash_buf", C["data"])
+            E.assume(uge(maxbuf.e, bv(1)))
+            events = []
+
+            def progress(I_, args, pc):
+                events.append((pc, args[0].e, args[1].e))
+                return ok(VUnit())
+            stream = VStruct("Stream", {"bytes": data, "pos": VInt(0)})
+            res = I.call("hash_stream_by_alg_with_progress_impl",
+                         [VStr(bstr.lit("sha256")), stream, some(hr), VBool(True), VPyFn(progress), maxbuf])
+            good = is_ok(res)
+            log = res.payload["Ok"][0].e
+            included = [z3.Not(z3.And(ugt(l0.e, bv(0)), ule(s0.e, bv(p)), ult(bv(p) - s0.e, l0.e))) for p in range(d.cap)]
+            before = select_positions(d, [z3.And(included[p], ult(bv(p), off.e)) for p in range(d.cap)])
+            after = select_positions(d, [z3.And(included[p], uge(bv(p), off.e)) for p in range(d.cap)])
+            be = BStr([z3.Extract(63 - 8 * i, 56 - 8 * i, off.e) for i in range(8)], bv(8))
+            want = bstr.concat(bstr.concat(before, be), after)
+            E.prove("a well-formed exclusion + marker list is accepted", good)
+            E.prove("digest input = selected bytes with the 8-byte big-endian offset inserted at the marker position", z3.Implies(good, bstr.eq(log, want)))
+            for i, (g, step, total) in enumerate(events):
+                E.prove("progress site %d: 1 <= step <= total" % i, z3.Implies(z3.And(g, good), z3.And(uge(step, bv(1)), ule(step, total))))
+            E.cover("marker in the middle of an included run", z3.And(good, ugt(off.e, bv(0)), ugt(before.n, bv(0)), ugt(after.n, bv(1))))
+            if not multibyte:
+                E.cover("marker on an included run of exactly one byte", z3.And(good, l0.e != bv(0), s0.e == off.e + bv(1)))
+        q.__name__ = "q_hash_marker_excl_%s%s" % ("multibyte_run_" if multibyte else "", "seq" if wasm else "pipe")
+        q.__doc__ = "one exclusion range + one BMFF v2 offset marker on an included position%s (%s branch)" % (
+            ", the included run at the marker having >= 2 bytes" if multibyte else "", "sequential" if wasm else "pipeline")
+        return q
+
     qs = []
+    if tier == "thorough":
+        for wasm in (True, False):
+            qs.append(mk_marker(wasm, False))
+            qs.append(mk_marker(wasm, True))
     for wasm in (True, False):
         qs.append(mk(0, True, wasm))
         for nr in range(1, C["ranges"] + 1):
@@ -286,6 +341,18 @@ def replay(E, nranges, exclusion):
     E.prove("empty data is rejected", z3.BoolVal(n != 0 or not r["ok"]))
     for i, (st, tot) in enumerate(r.get("steps", [])):
         E.prove("progress call %d: 1 <= step <= total" % i, z3.BoolVal((not (r["ok"] and fits)) or (1 <= st <= tot)))
+
+
+def replay_marker(E):
+    mi = E.model_inputs
+    data = mi["data"].encode("latin-1")
+    s0, l0, off = mi["start0"], mi["length0"], mi["marker_offset"]
+    inc = [not (l0 > 0 and s0 <= p < s0 + l0) for p in range(len(data))]
+    want = bytes(b for p, b in enumerate(data) if inc[p] and p < off) + off.to_bytes(8, "big") + bytes(b for p, b in enumerate(data) if inc[p] and p >= off)
+    r = E.native("hash_ranges", [mi["data"], [[s0, l0], [off, 1, off]], True, mi.get("max_hash_buf", 1), want.hex()])
+    E.prove("a well-formed exclusion + marker list is accepted", z3.BoolVal(bool(r["ok"])))
+    E.prove("digest input = selected bytes with the 8-byte big-endian offset inserted at the marker position",
+            z3.BoolVal((not r["ok"]) or bool(r.get("matches_expected"))))
 
 
 NATIVE_MAP = {}
